@@ -18,7 +18,7 @@ ASSUMPTIONS = [
     "finite inputs only (the statement quantifies over finite tensors)",
     "rounding slack 8*N*2^-24 buckets added to the half-bucket bound for float32 arithmetic",
 ]
-DECIDING = ["roundtrip_checked", "requant_checked", "int_range_checked", "insitu_values_checked"]
+DECIDING = ["roundtrip_checked", "requant_checked", "int_range_checked", "insitu_values_checked", "bucket_definition_checked", "requant_value_checked"]
 MIN_NONTRIVIAL = 50
 TIMEOUT = {"quick": 900, "thorough": 3600}
 
@@ -168,6 +168,19 @@ def check_case(case, dtype_name, rec):
     np.fill_diagonal(xo, 0.0)
   bucket = np.max(np.abs(xo), axis=0) / nb if xo.ndim >= 1 else np.abs(xo) / nb
   bexp = np.broadcast_to(bucket[None, ...], x.shape) if x.ndim >= 1 else bucket
+  # the stored per-column scale is the documented one: column max-abs / 127 (int8) or / 32767 (int16), up to float32
+  # rounding (and, with diagonal extraction, the ulp of the diagonal that x - diag(diag(x)) may leave behind)
+  bs = np.asarray(q.bucket_size, np.float64)
+  if bs.shape == np.shape(bucket):
+    slack = 4 * U * bucket + ((np.abs(np.diag(x64)) * 4 * U / nb) if use_diag else 0.0)
+    normal_cols = bucket >= MIN_NORMAL * 2
+    rec.count("bucket_definition_checked")
+    badb = normal_cols & (np.abs(bs - bucket) > slack)
+    if np.any(badb):
+      rec.violation("bucket-definition", "stored bucket size differs from column max-abs / %d by %.3g relative" % (
+          nb, float(np.max(np.abs(bs - bucket)[badb] / bucket[badb]))), wit)
+  else:
+    rec.count("bucket_shape_unexpected")
   err = np.abs(d64 - x64)
   tol = bexp * (0.5 + 8 * nb * U) + np.abs(x64) * 4 * U
   rec.count("roundtrip_checked")
@@ -215,6 +228,17 @@ def check_case(case, dtype_name, rec):
       break
     cur = cur2
   rec.count("requant_checked")
+  if ok:
+    # ... and the value they denote must not drift either (the per-column scale is re-derived in every cycle)
+    dn = np.asarray(cur.to_float(), np.float64)
+    colmax = np.max(np.abs(xo), axis=0)
+    if np.all((colmax / nb >= MIN_NORMAL * 2) | (colmax == 0)) and np.all(np.isfinite(d64)):
+      rec.count("requant_value_checked")
+      drift = np.abs(dn - d64)
+      if np.any(drift > 16 * U * np.abs(d64)):
+        m = d64 != 0
+        rec.violation("requant-value-drift", "after 3 dequantize/quantize cycles the carried value moved by %.3g relative (integers unchanged)" % (
+            float(np.max(drift[m] / np.abs(d64[m]))) if np.any(m) else float("inf")), wit)
   if not ok:
     colmax = np.max(np.abs(xo), axis=0)
     if np.all((colmax / nb >= MIN_NORMAL * 2) | (colmax == 0)):
@@ -245,8 +269,8 @@ def check_insitu(c, rec):
   events = []
   orig = Q.from_float_value.__func__
 
-  def tapped(cls, fvalue, quantized_dtype, extract_diagonal=False):
-    out = orig(cls, fvalue, quantized_dtype, extract_diagonal)
+  def tapped(cls, fvalue, quantized_dtype, extract_diagonal=False, *args, **kwargs):
+    out = orig(cls, fvalue, quantized_dtype, extract_diagonal, *args, **kwargs)
     if extract_diagonal and not isinstance(out.quantized, list):
       jax.debug.callback(lambda q_, d_, b_: events.append((np.asarray(q_), np.asarray(d_), np.asarray(b_))),
                          out.quantized, out.diagonal, out.bucket_size)
